@@ -425,9 +425,17 @@ class AsyncServer(base_server.BaseServer):
         if delete_it:
             self.logger.info('Disconnecting %s [%s]', sid, namespace)
             eio_sid = self.manager.pre_disconnect(sid, namespace=namespace)
-            await self._send_packet(eio_sid, self.packet_class(
-                packet.DISCONNECT, namespace=namespace))
+            if eio_sid is None:
+                # another task is already disconnecting this client
+                return
             try:
+                try:
+                    await self._send_packet(eio_sid, self.packet_class(
+                        packet.DISCONNECT, namespace=namespace))
+                except engineio.exceptions.SocketIsClosedError:
+                    # the connection is being closed, its end is left to this
+                    # task since the client is already marked
+                    pass
                 await self._trigger_event('disconnect', namespace, sid,
                                           self.reason.SERVER_DISCONNECT)
             finally:
